@@ -31,6 +31,12 @@ Definition pstart (b ts : list ptok) : Prop :=
 
 Definition is_numt (t : tok) : bool := match t with TNum _ => true | _ => false end.
 (* no juxtaposition: the next token is neither a name nor a number *)
+Definition is_q (t : tok) : bool := match t with TQ => true | _ => false end.
+Definition hasq (ts : list ptok) : bool := existsb (fun t => is_q (snd t)) ts.
+
+Lemma hasq_app : forall a b, hasq (a ++ b) = hasq a || hasq b.
+Proof. intros. unfold hasq. apply existsb_app. Qed.
+
 Definition nojux (rest : list ptok) : Prop := hd_is (fun t => is_name t || is_numt t) rest = false.
 
 Lemma nojux_name : forall t r, nojux (t :: r) -> is_name (snd t) = false.
